@@ -42,7 +42,7 @@ def _pretty(o):
 def run(tier: str, seed: int) -> int:
     chk = Check("C04", tier, seed, "model_checking")
     chk.model_check("MC_Encoding", "MC_Encoding.cfg" if tier == "quick" else "MC_Encoding_thorough.cfg")
-    cases = chk.generate("Gen_C04", shards=list(range(1, 14)))
+    cases = chk.generate("Gen_C04", shards=list(range(1, 17)))
     obs = drive("harness.props.c04", "drive_case", cases)
     verdicts = chk.judge("Judge_C04", obs)
     from .. import corrupt as _corrupt
